@@ -16,9 +16,8 @@
 (* Judgement:                                                              *)
 (*   LazyEqEager   after every step every sheet the specification says is  *)
 (*                 materialised is materialised, and every materialised    *)
-(*                 sheet has the twin's view, the marks of the             *)
-(*                 specification state and (sheets of the file) the view   *)
-(*                 of the eager load                                       *)
+(*                 sheet has the twin's view and the marks of the          *)
+(*                 specification state                                     *)
 (*   Save          succeeds; the package is valid (PkgMatches with the     *)
 (*                 package Lazy!Pkg builds for the intended design); the   *)
 (*                 reload succeeds; a sheet that is still raw reads back   *)
